@@ -2,7 +2,10 @@
 from __future__ import annotations
 
 import io
+import os
 import random
+import threading
+import warnings
 
 from vmon import contracts, env, gen, observe
 
@@ -68,6 +71,28 @@ def pairs(sel):
     return [(Instrument[i], Difficulty[d]) for i, d in sel]
 
 
+class werror:
+    """`with werror():` — inside shards of the "-W error" configuration, Python warnings are errors while the library's main entry
+    point runs (as under `python -W error` or pytest's filterwarnings=error): a warning raised while a chart is being read then
+    aborts the read, and the oracles see that like any other failed parse. Not applied from worker threads (the warnings filter
+    list is process-wide) and only around Chart.from_file / from_filepath called in their plainest documented forms, so that a
+    deliberate deprecation of some other API or call form can never be mistaken for a defect."""
+    ON = bool(os.environ.get("VMON_WERROR"))
+
+    def __enter__(self):
+        self.cm = None
+        if werror.ON and threading.current_thread() is threading.main_thread():
+            self.cm = warnings.catch_warnings()
+            self.cm.__enter__()
+            warnings.simplefilter("error")
+        return self
+
+    def __exit__(self, *a):
+        if self.cm is not None:
+            self.cm.__exit__(*a)
+        return False
+
+
 def parse(text: str, want=None, newline_passthrough: bool = True) -> Outcome:
     """Chart.from_file on a StringIO (newline='' so CR LF reach the parser as written)."""
     env.LOG.drain()
@@ -76,7 +101,10 @@ def parse(text: str, want=None, newline_passthrough: bool = True) -> Outcome:
     _CALLS = len(text) + (len(want) if want is not None and hasattr(want, "__len__") else 0)
     try:
         # the documented call forms rotate: the selection by keyword or positionally; "no selection" omitted or an explicit None
-        if want is None:
+        if werror.ON:
+            with werror():
+                c = Chart.from_file(fp) if want is None else Chart.from_file(fp, want_tracks=want)
+        elif want is None:
             c = Chart.from_file(fp) if _CALLS % 3 else (Chart.from_file(fp, None) if _CALLS % 2 else Chart.from_file(fp, want_tracks=None))
         else:
             c = Chart.from_file(fp, want_tracks=want) if _CALLS % 2 else Chart.from_file(fp, want)
